@@ -26,7 +26,7 @@ COMPONENTS_STUB = ["RandomSource.randint/random_float (SimRandom)", "set iterati
 ASSUMPTIONS = ["a child structurally identical to one parent counts as parental material", "for linear/structured crossover nothing is required about which keys survive",
                "tree mutation is outside this property's statement (it speaks of linear or structured genotypes)"]
 
-FEAT = features(list=2, annlist=2, union=1, tuple=1, cls=8, refined=3, nested=1, standalone=1, concrete_start=2, dependent=1, flaky=1, self_ref=1, falsy=1, future_annotations=1)
+FEAT = features(list=2, annlist=2, union=1, tuple=1, cls=8, refined=3, nested=1, standalone=1, concrete_start=2, dependent=1, flaky=1, self_ref=1, falsy=1, future_annotations=1, inherited_ctor=1)
 
 
 def budget(tier):
